@@ -346,6 +346,13 @@ class OpsMixin:
                         if (c & (c + 1)) == 0 and self.ent(st, c_le(Lin.const(0), x.lin)):
                             q, r = self.divmod_const(st, x.lin, c + 1)
                             return VInt(ty, r, c if mx is None else (mx & c), nb, tn)
+                        tz = (c & -c).bit_length() - 1
+                        top = c >> tz
+                        if tz > 0 and (top & (top + 1)) == 0 and self.ent(st, c_le(Lin.const(0), x.lin)):
+                            # contiguous field mask ((2^n - 1) << tz): the field value, scaled back into place
+                            q1, _ = self.divmod_const(st, x.lin, 1 << tz)
+                            _, r2 = self.divmod_const(st, q1, top + 1)
+                            return VInt(ty, r2.scale(1 << tz), c if mx is None else (mx & c), nb, tn)
                         # general constant mask: keep range only
                         res = self.top_int(ty, 0, c if mx is None else (mx & c))
                         return VInt(ty, res.lin, c if mx is None else (mx & c), nb, tn)
